@@ -288,6 +288,16 @@ def rand_history(rng):
     return h
 
 
+def rand_history2(rng):
+    """Two consecutive runs through the same ExtendedToStreamDecorator / StreamToExtendedDecorator."""
+    a, b = rand_history(rng), rand_history(rng)
+    k = sum(1 for op in a if op[0] == "test")
+    for op in b:
+        if op[0] == "test":
+            op[1]["id"] = "r2." + op[1]["id"]
+    return a + b
+
+
 def run(ctx):
     rng = ctx.rng
     n = 0
@@ -322,4 +332,4 @@ def run(ctx):
     for i in range(ctx.scale(6000, 400000)):
         if ctx.out_of_time():
             break
-        ctx.execute("hist", {"history": rand_history(rng)})
+        ctx.execute("hist", {"history": rand_history2(rng) if rng.random() < 0.2 else rand_history(rng)})
